@@ -2210,3 +2210,90 @@ fn k_transformed_shader_matrix() {
     }
     kani::cover!(true);
 }
+
+// ---------------------------------------------------------------- where a source is sampled under a transform (C11: sources are fixed in user space)
+pub static mut TTF_LOG: (u32, [u32; 6]) = (0, [0; 6]);
+pub fn transform_to_fixed_rec(transform: &Transform) -> MatrixFixedPoint {
+    unsafe {
+        TTF_LOG.0 += 1;
+        TTF_LOG.1 = [transform.m11.to_bits(), transform.m12.to_bits(), transform.m21.to_bits(), transform.m22.to_bits(), transform.m31.to_bits(), transform.m32.to_bits()];
+    }
+    MatrixFixedPoint { xx: 0x10000, xy: 0, yx: 0, yy: 0x10000, x0: 0, y0: 0 }
+}
+fn ttf_is(m: [f32; 6]) -> bool {
+    let l = unsafe { &TTF_LOG };
+    l.0 == 1 && l.1[0] == m[0].to_bits() && l.1[1] == m[1].to_bits() && l.1[2] == m[2].to_bits() && l.1[3] == m[3].to_bits() && l.1[4] == m[4].to_bits() && l.1[5] == m[5].to_bits()
+}
+// inverse CTM ti(p) = (0.5x − 0.25y + 1, 0.25x + 0.5y + 2); the source's own transform own(q) = (2qx + 3, 4qy − 2); they do not commute.
+// The property: pixel (x,y) is coloured by the source evaluated at own(ti(x+0.5, y+0.5)) = (x − 0.5y + 5.25, x + 2y + 7.5)   [all dyadic: exact in f32]
+fn sampling_ti() -> Transform { Transform::new(0.5, 0.25, -0.25, 0.5, 1., 2.) }
+fn sampling_own() -> Transform { Transform::new(2., 0., 0., 4., 3., -2.) }
+const SAMPLE_AT_CENTRE: [f32; 6] = [1., 1., -0.5, 2., 5.25, 7.5];
+// image shaders address texel centres: the same map minus half a texel
+const SAMPLE_AT_CENTRE_TEXEL: [f32; 6] = [1., 1., -0.5, 2., 4.75, 7.0];
+
+fn sampling_gradient_case(k: usize) {
+    let g = Gradient { stops: vec![GradientStop { position: 0., color: Color::new(255, 10, 20, 30) }] };
+    let (ti, own) = (sampling_ti(), sampling_own());
+    let src = match k {
+        0 => Source::LinearGradient(g, Spread::Pad, own),
+        1 => Source::RadialGradient(g, Spread::Repeat, own),
+        2 => Source::TwoCircleRadialGradient(g, Spread::Pad, Point::new(0., 0.), 1., Point::new(4., 0.), 2., own),
+        _ => Source::SweepGradient(g, Spread::Pad, 0., 360., own),
+    };
+    unsafe { TTF_LOG.0 = 0; }
+    let mut storage = ShaderStorage::None;
+    {
+        let _s = choose_shader(&ti, &src, 1.0, &mut storage);
+    }
+    assert!(ttf_is(SAMPLE_AT_CENTRE), "gradient evaluated at own(ti(pixel centre))");
+    let kind_ok = match (&storage, k) {
+        (ShaderStorage::LinearGradient(_), 0) | (ShaderStorage::RadialGradient(_), 1) | (ShaderStorage::TwoCircleRadialGradient(_), 2) | (ShaderStorage::SweepGradient(_), 3) => true,
+        _ => false,
+    };
+    assert!(kind_ok, "shader kind follows the source kind");
+    kani::cover!(true);
+}
+// @ob id=K.choose_shader_sampling_linear props=C11 kind=bounded:one-concrete-transform-pair tier=quick timeout=900 fns=choose_shader,LinearGradientShader::new
+// @+ desc="choose_shader's linear-gradient arm + the shader constructor, on a non-commuting (inverse CTM, source transform) pair: the float matrix handed to transform_to_fixed (recorder stub; its result goes unchanged into sw-composite's gradient source) is exactly pixel (x,y) -> own(ti(x+0.5, y+0.5)): the gradient is evaluated at T^-1 of the pixel centre, then through the source's own transform -- one matrix conversion"
+#[kani::proof]
+#[kani::unwind(258)]
+#[kani::stub(transform_to_fixed, transform_to_fixed_rec)]
+fn k_choose_shader_sampling_linear() { sampling_gradient_case(0); }
+// @ob id=K.choose_shader_sampling_radial props=C11 kind=bounded:one-concrete-transform-pair tier=quick timeout=900 fns=choose_shader,RadialGradientShader::new
+// @+ desc="choose_shader's radial-gradient arm + the shader constructor, on a non-commuting (inverse CTM, source transform) pair: the float matrix handed to transform_to_fixed (recorder stub; its result goes unchanged into sw-composite's gradient source) is exactly pixel (x,y) -> own(ti(x+0.5, y+0.5)): the gradient is evaluated at T^-1 of the pixel centre, then through the source's own transform -- one matrix conversion"
+#[kani::proof]
+#[kani::unwind(258)]
+#[kani::stub(transform_to_fixed, transform_to_fixed_rec)]
+fn k_choose_shader_sampling_radial() { sampling_gradient_case(1); }
+// (the two-circle radial arm has the same shape but its harness did not finish in 400 s with any of the three SAT back ends: not registered, not covered)
+// @ob id=K.choose_shader_sampling_sweep props=C11 kind=bounded:one-concrete-transform-pair tier=quick timeout=900 fns=choose_shader,SweepGradientShader::new
+// @+ desc="choose_shader's sweep-gradient arm + the shader constructor, on a non-commuting (inverse CTM, source transform) pair: the float matrix handed to transform_to_fixed (recorder stub; its result goes unchanged into sw-composite's gradient source) is exactly pixel (x,y) -> own(ti(x+0.5, y+0.5)): the gradient is evaluated at T^-1 of the pixel centre, then through the source's own transform -- one matrix conversion"
+#[kani::proof]
+#[kani::unwind(258)]
+#[kani::stub(transform_to_fixed, transform_to_fixed_rec)]
+fn k_choose_shader_sampling_sweep() { sampling_gradient_case(3); }
+
+// @ob id=K.choose_shader_sampling_image props=C11,C13 kind=bounded:one-concrete-transform-pair tier=quick timeout=900 fns=choose_shader,TransformedImageShader::new,TransformedImageAlphaShader::new,TransformedNearestImageShader::new,TransformedNearestImageAlphaShader::new
+// @+ desc="choose_shader + the transformed image shader constructors, all 8 non-fast-path arms (Pad|Repeat x Bilinear|Nearest x alpha 1|0.5) on a non-commuting (inverse CTM, source transform) pair: the float matrix handed to transform_to_fixed (recorder stub) is exactly pixel (x,y) -> own(ti(x+0.5, y+0.5)) − (0.5, 0.5): the image is sampled at T^-1 of the pixel centre, then through the source's own transform, in texel-centre coordinates"
+#[kani::proof]
+#[kani::unwind(10)]
+#[kani::stub(transform_to_fixed, transform_to_fixed_rec)]
+fn k_choose_shader_sampling_image() {
+    let data = [0xff102030u32; 4];
+    let (ti, own) = (sampling_ti(), sampling_own());
+    let mut k = 0;
+    while k < 8 {
+        let img = Image { width: 2, height: 2, data: &data };
+        let src = Source::Image(img, if k & 1 == 0 { ExtendMode::Pad } else { ExtendMode::Repeat }, if k & 2 == 0 { FilterMode::Bilinear } else { FilterMode::Nearest }, own);
+        unsafe { TTF_LOG.0 = 0; }
+        let mut storage = ShaderStorage::None;
+        {
+            let _s = choose_shader(&ti, &src, if k & 4 == 0 { 1.0 } else { 0.5 }, &mut storage);
+        }
+        assert!(shader_kind(&storage) >= 4 && shader_kind(&storage) <= 11, "general transform: a transformed image shader");
+        assert!(ttf_is(SAMPLE_AT_CENTRE_TEXEL), "image sampled at own(ti(pixel centre)) - half a texel");
+        k += 1;
+    }
+    kani::cover!(true);
+}
